@@ -256,7 +256,7 @@ def h_mode(ctx, kind, q, units):
             ctx.eq('%s.%s(%s) = dimensionless x R x T' % (kind, q, u), dim, _q(ctx, nd) * _q(ctx, c.R(u)) * T, rel=1e-12)
 
 
-def h_reaction(ctx, kind, form, q, units, rev):
+def h_reaction(ctx, kind, form, q, units, rev, zpe=None):
     from pmutt import constants as c
     if kind == 'Reaction':
         from pmutt.reaction import Reaction as cls
@@ -273,6 +273,8 @@ def h_reaction(ctx, kind, form, q, units, rev):
     P = ctx.real('P', 1e-4, 1e3)
     pa = ctx.real('P_A', 1e-4, 1e3)
     opts = dict(P=P, A_kwargs={'P': pa})
+    if zpe is not None:
+        opts['include_ZPE'] = zpe
     ext = q in ('Cv', 'Cp', 'S')
     for u in units:
         uu = u if ext else _strip_K(u)
@@ -327,14 +329,18 @@ def groups(tier):
             g.append(dict(name='mode/%s/%s' % (kind, q), harness=h_mode, params=dict(kind=kind, q=q, units=us)))
     for kind in ('Reaction', 'ChemkinReaction', 'SurfaceReaction'):
         for form in ('state', 'delta', 'act'):
-            for q in ('Cv', 'Cp', 'U', 'H', 'S', 'F', 'G'):
-                if form == 'act' and kind != 'Reaction' and q in ('H', 'G'):
-                    continue        # clamped forms: C09
+            for q in ('Cv', 'Cp', 'U', 'H', 'S', 'F', 'G', 'E'):
+                clamped = form == 'act' and kind != 'Reaction' and q in ('H', 'G')     # max(0, TS - IS, FS - IS): three paths
                 for rev in ((False, True) if form != 'state' else (False,)):
                     salt += 1
-                    if not th and kind != 'Reaction' and (salt % 3):
+                    if not th and kind != 'Reaction' and (salt % 3) and not clamped:
                         continue
                     us = molar if th else [u for i, u in enumerate(molar) if (i + salt) % 5 == 0]
+                    if q == 'E':
+                        for zpe in (False, True):
+                            g.append(dict(name='%s/%s/E/rev=%s/include_ZPE=%s' % (kind, form, rev, zpe), harness=h_reaction,
+                                          params=dict(kind=kind, form=form, q=q, units=us, rev=rev, zpe=zpe)))
+                        continue
                     g.append(dict(name='%s/%s/%s/rev=%s' % (kind, form, q, rev), harness=h_reaction,
                                   params=dict(kind=kind, form=form, q=q, units=us, rev=rev)))
     return g
